@@ -189,6 +189,9 @@ const CLASSES: &[(&str, &[usize])] = &[
     // a large (sparse-expanded) second-order cone together with exponential / power cones
     ("socexp", &[7, 3, 4, 0, 7, 3]),
     ("socpow", &[7, 4, 4, 0, 7, 2]),
+    // second-order + generalised power cones and NO nonnegative cone: Dual scaling from the first
+    // iteration with the SOC barrier in the centrality test (seed C06-f)
+    ("socgenpow", &[7, 5, 2, 5, 2]),
 ];
 
 fn family_cones(rng: &mut Rng, budget: usize) -> Vec<SupportedConeT<f64>> {
@@ -549,6 +552,8 @@ const CLASS_RULE: &[(&str, u32, f64, f64)] = &[
     ("socexp", 16, 9.9, 0.005),
     // measured: mean 8.44..8.52, p95 13, 1/4000
     ("socpow", 16, 10.0, 0.005),
+    // measured (seeds 1..3, 1600 each): mean 9.37..9.48, p95 16, 5..14/1600 not Solved
+    ("socgenpow", 20, 11.0, 0.02),
 ];
 const CLASS_SIZE: usize = 20;
 fn oracle_gc(r: &Req, out: &str) -> Result<(), String> {
